@@ -1123,4 +1123,271 @@ theorem tokSkip_spec (m : Mem) (D : List Byte) (delim fuel : Nat) (hD : CStr m d
     have a1 : str + 1 + q.length = str + (q.length + 1) := by omega
     rw [a1]
 
+
+/-! ## strstr / strcasestr -/
+
+/-- two plain `char`s compare equal in the inner loop: `f(*h) == f(*n)` -/
+def EqS (f : Int → Int) (a b : Byte) : Prop := f (scInt a) = f (scInt b)
+
+theorem strstrInner_spec (f : Int → Int) (hf0 : ∀ a, f (scInt a) = f (scInt 0#8) → a = 0#8) (m : Mem)
+    (nd hl : List Byte) (h n fuel : Nat) (hH : CStr m h hl) (hN : CStr m n nd) (hfu : hl.length < fuel) :
+    ∃ n' b, strstrInner f m fuel h n = some n' ∧ m n' = some b ∧ (b = 0#8 ↔ MatchAt (EqS f) nd hl) := by
+  induction nd generalizing hl h n fuel with
+  | nil =>
+    obtain ⟨g, rfl⟩ : ∃ k, fuel = k + 1 := ⟨fuel - 1, by omega⟩
+    have hn := cstr_nil.mp hN
+    refine ⟨n, 0#8, ?_, hn, by simp [MatchAt]⟩
+    cases hl with
+    | nil => simp [strstrInner, cstr_nil.mp hH]
+    | cons a hl =>
+      obtain ⟨h1, h2, _⟩ := cstr_cons.mp hH
+      have : ¬ f (scInt a) = f (scInt 0#8) := fun e => h2 (hf0 a e)
+      simp [strstrInner, h1, h2, hn, this]
+  | cons b nd ih =>
+    obtain ⟨g, rfl⟩ : ∃ k, fuel = k + 1 := ⟨fuel - 1, by omega⟩
+    obtain ⟨n1, n2, n3⟩ := cstr_cons.mp hN
+    cases hl with
+    | nil =>
+      exact ⟨n, b, by simp [strstrInner, cstr_nil.mp hH], n1, by simp [MatchAt, n2]⟩
+    | cons a hl =>
+      obtain ⟨h1, h2, h3⟩ := cstr_cons.mp hH
+      simp only [List.length_cons] at hfu
+      by_cases hab : f (scInt a) = f (scInt b)
+      · obtain ⟨n', b', e, hb', hiff⟩ := ih hl (h + 1) (n + 1) g h3 n3 (by omega)
+        refine ⟨n', b', by simp [strstrInner, h1, h2, n1, hab, e], hb', ?_⟩
+        simp only [MatchAt, EqS, hab, true_and]; exact hiff
+      · exact ⟨n, b, by simp [strstrInner, h1, h2, n1, hab], n1, by simp [MatchAt, EqS, hab, n2]⟩
+
+theorem matchAt_cons_nil {R : Byte → Byte → Prop} {b : Byte} {nd : List Byte} : ¬ MatchAt R (b :: nd) [] := by
+  simp [MatchAt]
+
+theorem strstrOuter_found (f : Int → Int) (hf0 : ∀ a, f (scInt a) = f (scInt 0#8) → a = 0#8) (m : Mem)
+    (nd : List Byte) (needle fuel : Nat) (hN : CStr m needle nd) (hne : nd ≠ [])
+    (p rest : List Byte) (hs g : Nat) (hH : CStr m hs (p ++ rest)) (hm : MatchAt (EqS f) nd rest)
+    (hno : ∀ i, i < p.length → ¬ MatchAt (EqS f) nd ((p ++ rest).drop i))
+    (hfu : (p ++ rest).length < fuel) (hg : p.length < g) :
+    strstrOuter f m needle fuel g hs = some (some (hs + p.length)) := by
+  induction p generalizing hs g with
+  | nil =>
+    obtain ⟨g, rfl⟩ : ∃ k, g = k + 1 := ⟨g - 1, by simp at hg; omega⟩
+    simp only [List.nil_append] at hH hfu
+    obtain ⟨n', b, e, hb, hiff⟩ := strstrInner_spec f hf0 m nd rest hs needle fuel hH hN hfu
+    have hb0 : b = 0#8 := hiff.mpr hm
+    cases rest with
+    | nil =>
+      cases nd with
+      | nil => exact absurd rfl hne
+      | cons _ _ => exact absurd hm matchAt_cons_nil
+    | cons a rest =>
+      obtain ⟨h1, h2, _⟩ := cstr_cons.mp hH
+      simp [strstrOuter, h1, h2, e, hb, hb0]
+  | cons a p ih =>
+    obtain ⟨g, rfl⟩ : ∃ k, g = k + 1 := ⟨g - 1, by simp at hg; omega⟩
+    simp only [List.cons_append] at hH hfu
+    obtain ⟨h1, h2, h3⟩ := cstr_cons.mp hH
+    obtain ⟨n', b, e, hb, hiff⟩ := strstrInner_spec f hf0 m nd (a :: (p ++ rest)) hs needle fuel hH hN hfu
+    have hb0 : ¬ b = 0#8 := fun e => (hno 0 (by simp)) (by simpa using hiff.mp e)
+    have := ih (hs + 1) g h3 (fun i hi => by simpa using hno (i + 1) (by simp; omega))
+      (by simp at hfu ⊢; omega) (by simp at hg; omega)
+    simp [strstrOuter, h1, h2, e, hb, hb0, this]
+    omega
+
+theorem strstrOuter_none (f : Int → Int) (hf0 : ∀ a, f (scInt a) = f (scInt 0#8) → a = 0#8) (m : Mem)
+    (nd : List Byte) (needle fuel : Nat) (hN : CStr m needle nd)
+    (hl : List Byte) (hs g : Nat) (hH : CStr m hs hl)
+    (hno : ∀ i, i < hl.length → ¬ MatchAt (EqS f) nd (hl.drop i))
+    (hfu : hl.length < fuel) (hg : hl.length < g) :
+    strstrOuter f m needle fuel g hs = some none := by
+  induction hl generalizing hs g with
+  | nil =>
+    obtain ⟨g, rfl⟩ : ∃ k, g = k + 1 := ⟨g - 1, by simp at hg; omega⟩
+    simp [strstrOuter, cstr_nil.mp hH]
+  | cons a hl ih =>
+    obtain ⟨g, rfl⟩ : ∃ k, g = k + 1 := ⟨g - 1, by simp at hg; omega⟩
+    obtain ⟨h1, h2, h3⟩ := cstr_cons.mp hH
+    obtain ⟨n', b, e, hb, hiff⟩ := strstrInner_spec f hf0 m nd (a :: hl) hs needle fuel hH hN hfu
+    have hb0 : ¬ b = 0#8 := fun e => (hno 0 (by simp)) (by simpa using hiff.mp e)
+    have := ih (hs + 1) g h3 (fun i hi => by simpa using hno (i + 1) (by simp; omega))
+      (by simp at hfu; omega) (by simp at hg; omega)
+    simp [strstrOuter, h1, h2, e, hb, hb0, this]
+
+theorem scInt_inj {a b : Byte} (h : scInt a = scInt b) : a = b := by
+  unfold scInt at h; exact BitVec.eq_of_toInt_eq h
+
+theorem hf0_id : ∀ a : Byte, id (scInt a) = id (scInt 0#8) → a = 0#8 := fun _ h => scInt_inj h
+
+theorem tolowerI_scInt : ∀ a : Byte, tolowerI (scInt a) = scInt (lowerB a) := by
+  decide +kernel
+
+theorem eqS_lower {a b : Byte} : EqS tolowerI a b ↔ lowerB a = lowerB b := by
+  unfold EqS; rw [tolowerI_scInt, tolowerI_scInt]
+  exact ⟨scInt_inj, fun h => by rw [h]⟩
+
+theorem eqS_id {a b : Byte} : EqS id a b ↔ a = b := ⟨fun h => scInt_inj h, fun h => by subst h; rfl⟩
+
+theorem hf0_lower : ∀ a : Byte, tolowerI (scInt a) = tolowerI (scInt 0#8) → a = 0#8 := by
+  intro a h
+  have := eqS_lower.mp h
+  rw [show lowerB 0#8 = 0#8 by decide] at this
+  exact lowerB_eq_zero.mp this
+
+theorem matchAt_id_iff (nd hay : List Byte) : MatchAt (EqS id) nd hay ↔ nd <+: hay := by
+  induction nd generalizing hay with
+  | nil => simp [MatchAt]
+  | cons b nd ih =>
+    cases hay with
+    | nil => simp [MatchAt]
+    | cons a hay =>
+      simp only [MatchAt, eqS_id, ih, List.cons_prefix_cons]
+      constructor
+      · rintro ⟨h1, h2⟩; exact ⟨h1.symm, h2⟩
+      · rintro ⟨h1, h2⟩; exact ⟨h1.symm, h2⟩
+
+theorem matchAt_lower_iff (nd hay : List Byte) :
+    MatchAt (EqS tolowerI) nd hay ↔ nd.map lowerB <+: hay.map lowerB := by
+  induction nd generalizing hay with
+  | nil => simp [MatchAt]
+  | cons b nd ih =>
+    cases hay with
+    | nil => simp [MatchAt]
+    | cons a hay =>
+      simp only [MatchAt, eqS_lower, ih, List.map_cons, List.cons_prefix_cons]
+      constructor
+      · rintro ⟨h1, h2⟩; exact ⟨h1.symm, h2⟩
+      · rintro ⟨h1, h2⟩; exact ⟨h1.symm, h2⟩
+
+
+/-! ## strncat: the 4× unrolled loop is the simple loop -/
+
+theorem strncatTail_succ (n : Nat) (m : Mem) (s1 s2 : Nat) (c0 : Byte) :
+    strncatTail (n + 1) m s1 s2 c0 =
+      (catStep m s1 s2).bind fun r => if r.2 = 0 then some r.1 else strncatTail n r.1 (s1 + 1) (s2 + 1) r.2 := by
+  simp only [strncatTail, bind, Option.bind]
+  cases catStep m s1 s2 with
+  | none => rfl
+  | some r => obtain ⟨m', c⟩ := r; rfl
+
+theorem tail_unroll4 (n : Nat) (m : Mem) (s1 s2 : Nat) (c0 : Byte) :
+    strncatTail (n + 4) m s1 s2 c0 =
+      (cat4Body m s1 s2).bind fun r =>
+        match r.2 with
+        | none => some r.1
+        | some c => strncatTail n r.1 (s1 + 4) (s2 + 4) c := by
+  rw [show n + 4 = n + 3 + 1 by omega, strncatTail_succ]
+  unfold cat4Body
+  simp only [bind, Option.bind, pure]
+  cases h1 : catStep m s1 s2 with
+  | none => rfl
+  | some r1 =>
+    obtain ⟨m1, c1⟩ := r1
+    simp only
+    by_cases z1 : c1 = 0
+    · simp [z1]
+    · simp only [z1, if_false]
+      rw [show n + 3 = n + 2 + 1 by omega, strncatTail_succ]
+      simp only [Option.bind]
+      cases h2 : catStep m1 (s1 + 1) (s2 + 1) with
+      | none => rfl
+      | some r2 =>
+        obtain ⟨m2, c2⟩ := r2
+        simp only
+        by_cases z2 : c2 = 0
+        · simp [z2]
+        · simp only [z2, if_false]
+          rw [show n + 2 = n + 1 + 1 by omega, strncatTail_succ]
+          simp only [Option.bind]
+          rw [show s1 + 1 + 1 = s1 + 2 by omega, show s2 + 1 + 1 = s2 + 2 by omega]
+          cases h3 : catStep m2 (s1 + 2) (s2 + 2) with
+          | none => rfl
+          | some r3 =>
+            obtain ⟨m3, c3⟩ := r3
+            simp only
+            by_cases z3 : c3 = 0
+            · simp [z3]
+            · simp only [z3, if_false]
+              rw [strncatTail_succ]
+              simp only [Option.bind]
+              rw [show s1 + 2 + 1 = s1 + 3 by omega, show s2 + 2 + 1 = s2 + 3 by omega]
+              cases h4 : catStep m3 (s1 + 3) (s2 + 3) with
+              | none => rfl
+              | some r4 =>
+                obtain ⟨m4, c4⟩ := r4
+                simp only
+                by_cases z4 : c4 = 0
+                · simp [z4]
+                · simp only [z4, if_false]
+
+theorem strncat4_eq_tail (k r : Nat) (m : Mem) (s1 s2 : Nat) (c0 : Byte) :
+    strncatTail (4 * (k + 1) + r) m s1 s2 c0 =
+      (strncat4 k m s1 s2).bind fun x =>
+        match x.2 with
+        | none => some x.1
+        | some (s1', s2', c) => strncatTail r x.1 s1' s2' c := by
+  induction k generalizing m s1 s2 c0 with
+  | zero =>
+    rw [show 4 * (0 + 1) + r = r + 4 by omega, tail_unroll4]
+    simp only [strncat4, bind, Option.bind, pure]
+    cases cat4Body m s1 s2 with
+    | none => rfl
+    | some x =>
+      obtain ⟨m', res⟩ := x
+      cases res <;> rfl
+  | succ k ih =>
+    rw [show 4 * (k + 1 + 1) + r = (4 * (k + 1) + r) + 4 by omega, tail_unroll4]
+    simp only [strncat4, bind, Option.bind, pure]
+    cases cat4Body m s1 s2 with
+    | none => rfl
+    | some x =>
+      obtain ⟨m', res⟩ := x
+      cases res with
+      | none => rfl
+      | some c => simp only; rw [ih]; rfl
+
+/-! ## the simple loop -/
+
+theorem strncatTail_spec (c : List Byte) (n : Nat) (m : Mem) (s1 s2 : Nat) (c0 : Byte)
+    (hs : Holds m s2 c) (h0 : 0#8 ∉ c) (hn : c.length ≤ n)
+    (hend : c.length < n → m (s2 + c.length) = some 0#8)
+    (hc0 : c0 ≠ 0#8 ∨ m (s1 + 1) = some 0#8)
+    (hd : Mapped m (s1 + 1) (c.length + 1)) (hdis : Disjoint (s1 + 1) (c.length + 1) s2 (c.length + 1)) :
+    ∃ m', strncatTail n m s1 s2 c0 = some m' ∧ Holds m' (s1 + 1) (c ++ [0#8]) ∧
+      SameOutside m m' (s1 + 1) (c.length + 1) := by
+  induction c generalizing n m s1 s2 c0 with
+  | nil =>
+    have hd0 : (m (s1 + 1)).isSome := by simpa using hd 0 (by omega)
+    cases n with
+    | zero =>
+      by_cases hz : c0 = 0#8
+      · have hm : m (s1 + 1) = some 0#8 := by rcases hc0 with e | e; exact absurd hz e; exact e
+        refine ⟨m, by simp [strncatTail, hz], ?_, SameOutside.refl _ _ _⟩
+        simpa [holds_cons, Holds.nil] using hm
+      · refine ⟨upd m (s1 + 1) 0#8, by simp [strncatTail, hz, wr_upd hd0], ?_, ?_⟩
+        · simp [holds_cons, Holds.nil]
+        · intro j hj; simp at hj; exact upd_other _ _ (by omega)
+    | succ n =>
+      have he := hend (by simp)
+      simp only [List.length_nil, Nat.add_zero] at he
+      refine ⟨upd m (s1 + 1) 0#8, ?_, ?_, ?_⟩
+      · simp [strncatTail_succ, catStep, he, wr_upd hd0]
+      · simp [holds_cons, Holds.nil]
+      · intro j hj; simp at hj; exact upd_other _ _ (by omega)
+  | cons x c ih =>
+    obtain ⟨n, rfl⟩ : ∃ k, n = k + 1 := ⟨n - 1, by simp at hn; omega⟩
+    rw [holds_cons] at hs
+    simp only [List.mem_cons, not_or] at h0
+    have hx : ¬ x = 0#8 := fun e => h0.1 e.symm
+    simp only [List.length_cons] at hd hdis hn hend
+    rw [mapped_succ] at hd
+    unfold Disjoint at hdis
+    obtain ⟨m', e, hh, ho⟩ := ih n (upd m (s1 + 1) x) (s1 + 1) (s2 + 1) x
+      (holds_upd_outside x hs.2 (by omega)) h0.2 (by omega)
+      (fun hl => by
+        rw [upd_other _ _ (by omega)]
+        have := hend (by omega)
+        rwa [show s2 + (c.length + 1) = s2 + 1 + c.length by omega] at this)
+      (Or.inl hx) (mapped_upd hd.2) (by unfold Disjoint; omega)
+    refine ⟨m', ?_, ?_, sameOutside_upd_cons ho⟩
+    · simp [strncatTail_succ, catStep, hs.1, wr_upd hd.1, hx, e]
+    · simpa using holds_cons_of_upd ho hh
+
 end Igris.C08
